@@ -120,9 +120,15 @@ def run(r):
     n = check_rank2(r, "C15-SHP", q)
     rep.require(n >= 1, "C15-SHP: edge subscript on the neighbour array not found")
     # the graph variable used by eval is the Graph built from the edges, simplified before community detection
-    g = s.env.get("g")
-    okg = g is not None and any(head(x) == "call" and strip(x[1]) == ("glob", "igraph.Graph") for x in walk(g))
-    rep.ob("C15-CFG", q, okg, "the local name used by the community call ('g') is the graph built from the edges", where_of(r.P, s.func, s.func.node), expected="g = igraph.Graph(edges, n=len(nodes))", found=show(g, 60), key="graph name")
+    evs0 = [e for e in s.events_of("call") if _is_community_lookup(strip(e["term"]))]
+    # the function whose local scope the eval'd text refers to (the lookup may live in a helper that was read through)
+    host = s
+    if evs0:
+        ln = getattr(evs0[0].node, "lineno", 0)
+        for fq, fn in r.P.functions.items():
+            if fn.module == s.func.module and fn.node.lineno <= ln <= getattr(fn.node, "end_lineno", fn.node.lineno) and fn.parent is None:
+                host = r.A.summary(fq)
+    g = host.env.get("g")
     simp = [e for e in s.events_of("call") if head(strip(strip(e["term"])[1])) == "attr" and strip(strip(e["term"])[1])[2] == "simplify"]
     evs = [e for e in s.events_of("call") if _is_community_lookup(strip(e["term"]))]
     if not evs:
